@@ -166,6 +166,7 @@ def execute(case):
     scale = 1
     if case.get("op") == "interp":
         scale = 2 ** len(case["args"]["axis"])
+    scale *= case["args"]["data"].get("den", 1)
     rational = case["kind"] in ("weighted",) or case.get("sub") == "average"
     try:
         ds = model.build_dataset(case["grid"])
